@@ -226,6 +226,10 @@ def to_mutation(m):
     """Build a *fresh* django-evolution mutation object from its data form."""
     from django_evolution import mutations as M
     k = m['kind']
+    if k == 'MoveToDjangoMigrations':
+        if m.get('mark_applied') is None:
+            return M.MoveToDjangoMigrations()
+        return M.MoveToDjangoMigrations(mark_applied=list(m['mark_applied']))
     if k == 'AddField':
         f = m['field']
         kw = field_kwargs(f, for_mutation=True)
